@@ -304,24 +304,391 @@ macro_rules! walk_body {
 	}};
 }
 
+// =================================================================================================
+// The format-agnostic wrapper API (src/wrap/*.rs) as a canonical item stream (property C19):
+// `wrap_stream!` calls every method the wrappers offer — wrap/pe.rs, headers.rs, sections.rs,
+// exports.rs, imports.rs, debug.rs, tls.rs, load_config.rs, scanner.rs — and prints what they hand
+// out in canonical text (references as off:len, values decimal, strings hex; never Debug/Display of a
+// library type).  The SAME macro body is expanded on the wrapper types (`walk wf|wv`) and on the four
+// format-specific types (`walk f32|…`): the digest of the stream is what class C19 compares between
+// the wrapper and the specific view it selected.
+// =================================================================================================
+use crate::ops_img::{rs, tref};
+use pelite::image::*;
+use pelite::pe64::debug::Entry;
+use pelite::pe64::exports::Export;
+use pelite::pe64::imports::Import;
+use pelite::util::CStr;
+use pelite::Wrap;
+
+/// canonical text of a value the wrapper API hands out: the same text for `T` and for the `Wrap` holding it
+pub trait Canon { fn canon(&self, g: &Guarded) -> String; }
+macro_rules! canon_struct_ref {
+	($($t:ty),*) => { $(impl<'a> Canon for &'a $t { fn canon(&self, g: &Guarded) -> String { tref(g, *self as *const $t, std::mem::size_of::<$t>()) } })* };
+}
+canon_struct_ref!(IMAGE_NT_HEADERS32, IMAGE_NT_HEADERS64, IMAGE_OPTIONAL_HEADER32, IMAGE_OPTIONAL_HEADER64,
+	IMAGE_TLS_DIRECTORY32, IMAGE_TLS_DIRECTORY64, IMAGE_LOAD_CONFIG_DIRECTORY32, IMAGE_LOAD_CONFIG_DIRECTORY64);
+impl<'a> Canon for &'a u32 { fn canon(&self, g: &Guarded) -> String { format!("{}={}", tref(g, *self as *const u32, 4), **self) } }
+impl<'a> Canon for &'a u64 { fn canon(&self, g: &Guarded) -> String { format!("{}={}", tref(g, *self as *const u64, 8), **self) } }
+impl<'a> Canon for &'a [u32] { fn canon(&self, g: &Guarded) -> String { format!("{}[{}]", tref(g, self.as_ptr(), self.len() * 4), self.iter().map(|x| x.to_string()).collect::<Vec<_>>().join(",")) } }
+impl<'a> Canon for &'a [u64] { fn canon(&self, g: &Guarded) -> String { format!("{}[{}]", tref(g, self.as_ptr(), self.len() * 8), self.iter().map(|x| x.to_string()).collect::<Vec<_>>().join(",")) } }
+impl<'a, R: Canon> Canon for (R, pelite::Result<Import<'a>>) { fn canon(&self, g: &Guarded) -> String { format!("{}>{}", self.0.canon(g), imp_s(g, self.1)) } }
+impl<A: Canon, B: Canon> Canon for Wrap<A, B> { fn canon(&self, g: &Guarded) -> String { match self { Wrap::T32(a) => a.canon(g), Wrap::T64(b) => b.canon(g) } } }
+
+pub fn rcanon<T: Canon>(g: &Guarded, r: pelite::Result<T>) -> String { match r { Ok(x) => x.canon(g), Err(e) => format!("!{}", errname(e)) } }
+pub fn cstr_s(g: &Guarded, r: pelite::Result<&CStr>) -> String {
+	match r { Ok(c) => { let b = c.c_str(); format!("{}:{}", g.rf(b.as_ptr(), b.len()), hex(c.as_ref())) }, Err(e) => format!("!{}", errname(e)) }
+}
+pub fn imp_s(g: &Guarded, r: pelite::Result<Import<'_>>) -> String {
+	match r {
+		Ok(Import::ByName { hint, name }) => format!("n{}@{}", hint, cstr_s(g, Ok(name))),
+		Ok(Import::ByOrdinal { ord }) => format!("o{}", ord),
+		Err(e) => format!("!{}", errname(e)),
+	}
+}
+pub fn exp_s(g: &Guarded, r: pelite::Result<Export<'_>>) -> String {
+	match r {
+		Ok(Export::Symbol(rva)) => format!("Symbol({})@{}", *rva, tref(g, rva as *const u32, 4)),
+		Ok(Export::Forward(s)) => { let b = s.c_str(); format!("Forward({})@{}", hex(s.as_ref()), g.rf(b.as_ptr(), b.len())) },
+		Err(e) => format!("err:{}", errname(e)),
+	}
+}
+fn rslice<T>(g: &Guarded, r: pelite::Result<&[T]>) -> String {
+	match r { Ok(t) => tref(g, t.as_ptr(), t.len() * std::mem::size_of::<T>()), Err(e) => format!("!{}", errname(e)) }
+}
+fn obytes(g: &Guarded, d: Option<&[u8]>) -> String { match d { Some(b) => g.rf(b.as_ptr(), b.len()), None => "none".to_string() } }
+/// a debug directory entry, interpreted (the same `Entry` type through both APIs); also its `as_*` projections
+pub fn entry_s(g: &Guarded, e: pelite::Result<Entry>) -> String {
+	match e {
+		Err(e) => format!("!{}", errname(e)),
+		Ok(en) => {
+			let proj = format!("{}{}{}{}", en.as_code_view().is_some() as u8, en.as_dbg().is_some() as u8, en.as_pgo().is_some() as u8, en.as_unknown().is_some() as u8);
+			match en {
+				Entry::CodeView(cv) => format!("cv({},fmt={},age={},name={})", proj, hex(cv.format().as_bytes()), cv.age(), cstr_s(g, Ok(cv.pdb_file_name()))),
+				Entry::Dbg(d) => format!("dbg({},img={})", proj, tref(g, d.image(), 12)),
+				Entry::Pgo(pgo) => {
+					let im = pgo.image();
+					let items: Vec<String> = pgo.iter().take(5000).map(|it| format!("{}:{}:{}", it.rva, it.size, cstr_s(g, Ok(it.name)))).collect();
+					format!("pgo({},img={},[{}])", proj, tref(g, im.as_ptr(), im.len() * 4), items.join(","))
+				},
+				Entry::Unknown(d) => format!("unk({},{})", proj, obytes(g, d)),
+			}
+		},
+	}
+}
+
+/// `exc <k> dump` text of an exception directory (the format of ops_dirs.rs `exc_dump`)
+macro_rules! exc_dump_text {
+	($g:expr, $exc:expr) => {{
+		let (g, exc) = ($g, $exc);
+		let im = exc.image();
+		let mut fns = Vec::new();
+		for f in exc.functions() {
+			let rf = f.image();
+			let uw = match f.unwind_info() {
+				Err(e) => format!("!{}", errname(e)),
+				Ok(ui) => { let c = ui.unwind_codes(); format!("{}(ver={},flags={},prolog={},freg={},foff={},codes={})", tref(g, ui.image(), 4), ui.version(), ui.flags(), ui.size_of_prolog(), ui.frame_register(), ui.frame_offset(), tref(g, c.as_ptr(), c.len() * 2)) },
+			};
+			let by = match f.bytes() { Ok(b) => g.rf(b.as_ptr(), b.len()), Err(e) => format!("!{}", errname(e)) };
+			fns.push(format!("{{rf={} {}:{}:{} bytes={} uw={}}}", tref(g, rf, 12), rf.BeginAddress, rf.EndAddress, rf.UnwindData, by, uw));
+		}
+		format!("ok img={} n={} sorted={} [{}]", tref(g, im.as_ptr(), im.len() * 12), im.len(), exc.check_sorted() as u8, fns.join(";"))
+	}};
+}
+/// `exc <k> lookup <pc>` text (the format of ops_dirs.rs `exc_lookup`)
+macro_rules! exc_lookup_text {
+	($g:expr, $exc:expr, $pc:expr) => {{
+		let (g, exc, pc) = ($g, $exc, $pc);
+		let f = match exc.lookup_function_entry(pc) { Some(f) => tref(g, f.image(), 12), None => "none".to_string() };
+		match exc.index_of(pc) { Ok(i) => format!("ok found={} fn={}", i, f), Err(i) => format!("ok notfound={} fn={}", i, f) }
+	}};
+}
+macro_rules! canon_exception {
+	($m:ident) => {
+		impl<'a, P: pelite::$m::Pe<'a>> Canon for pelite::$m::exception::Exception<'a, P> {
+			fn canon(&self, g: &Guarded) -> String { exc_dump_text!(g, self) }
+		}
+	};
+}
+canon_exception!(pe32);
+canon_exception!(pe64);
+
+/// What only one of the two API families offers under a given name:
+/// `get_export_by_{ordinal,import,name}` + `as_ref` (wrappers) / `GetProcAddress::get_export` (format specific)
+pub trait WrapOnly<'a> {
+	fn by_ord(&self, o: u16) -> pelite::Result<Export<'a>>;
+	fn by_imp(&self, i: Import<'a>) -> pelite::Result<Export<'a>>;
+	fn by_name(&self, n: &[u8]) -> pelite::Result<Export<'a>>;
+	fn as_ref_len(&self) -> usize;
+}
+macro_rules! wrap_only_specific {
+	($t:ty, $m:ident) => {
+		impl<'a> WrapOnly<'a> for $t {
+			fn by_ord(&self, o: u16) -> pelite::Result<Export<'a>> { use pelite::$m::exports::GetProcAddress; self.get_export(o) }
+			fn by_imp(&self, i: Import<'a>) -> pelite::Result<Export<'a>> { use pelite::$m::exports::GetProcAddress; self.get_export(i) }
+			fn by_name(&self, n: &[u8]) -> pelite::Result<Export<'a>> { use pelite::$m::exports::GetProcAddress; self.get_export(n) }
+			fn as_ref_len(&self) -> usize { use pelite::$m::PeObject; (&self).image().len() }
+		}
+	};
+}
+wrap_only_specific!(pelite::pe32::PeFile<'a>, pe32);
+wrap_only_specific!(pelite::pe32::PeView<'a>, pe32);
+wrap_only_specific!(pelite::pe64::PeFile<'a>, pe64);
+wrap_only_specific!(pelite::pe64::PeView<'a>, pe64);
+macro_rules! wrap_only_wrapper {
+	($t:ty) => {
+		impl<'a> WrapOnly<'a> for $t {
+			fn by_ord(&self, o: u16) -> pelite::Result<Export<'a>> { self.get_export_by_ordinal(o) }
+			fn by_imp(&self, i: Import<'a>) -> pelite::Result<Export<'a>> { self.get_export_by_import(i) }
+			fn by_name(&self, n: &[u8]) -> pelite::Result<Export<'a>> { self.get_export_by_name(n) }
+			fn as_ref_len(&self) -> usize {
+				use pelite::pe32::PeObject as _;
+				use pelite::pe64::PeObject as _;
+				match self.as_ref() { Wrap::T32(r) => r.image().len(), Wrap::T64(r) => r.image().len() }
+			}
+		}
+	};
+}
+wrap_only_wrapper!(pelite::PeFile<'a>);
+wrap_only_wrapper!(pelite::PeView<'a>);
+
+macro_rules! wrap_stream {
+	($acc:ident, $p:ident) => {{
+		let g: &Guarded = $acc.g;
+		let er = |e: pelite::Error| format!("!{}", errname(e));
+		// ---- wrap/pe.rs: the view itself and the headers
+		$acc.bytes("image", $p.image());
+		$acc.txt("align", match $p.align() { pelite::Align::File => "File", pelite::Align::Section => "Section" }.to_string());
+		$acc.txt("as_ref", WrapOnly::as_ref_len(&$p).to_string());
+		$acc.obj("dos", $p.dos_header(), 64);
+		$acc.bytes("dosimg", $p.dos_image());
+		$acc.txt("nt", $p.nt_headers().canon(g));
+		$acc.obj("fh", $p.file_header(), 20);
+		$acc.txt("opt", $p.optional_header().canon(g));
+		let dd = $p.data_directory();
+		$acc.obj("dd", dd.as_ptr(), dd.len() * 8);
+		// ---- wrap/sections.rs
+		let sh = $p.section_headers();
+		$acc.obj("sec", sh.image().as_ptr(), sh.image().len() * 40);
+		$acc.obj("sec.slice", sh.as_slice().as_ptr(), sh.as_slice().len() * 40);
+		$acc.txt("sec.into_iter", sh.into_iter().count().to_string());
+		let sec_idx = |s: Option<&pelite::image::IMAGE_SECTION_HEADER>| match s { Some(s) => ((s as *const _ as usize - sh.image().as_ptr() as usize) / 40).to_string(), None => "none".to_string() };
+		for s in sh.iter().take(100) {
+			let (vr, fr) = (s.virtual_range(), s.file_range());
+			let nm = match s.name() { Ok(n) => format!("s{}", hex(n.as_bytes())), Err(b) => format!("b{}", hex(b)) };
+			$acc.txt("sec.hdr", format!("{} {} {}..{} {}..{}", hex(s.name_bytes()), nm, vr.start, vr.end, fr.start, fr.end));
+			$acc.txt("sec.bytes", rs(g, $p.get_section_bytes(s)));
+			$acc.txt("sec.by_name", sec_idx(sh.by_name(s.name_bytes()).map(|x| &**x)));
+			$acc.txt("sec.by_rva", sec_idx(sh.by_rva(s.VirtualAddress).map(|x| &**x)));
+		}
+		// ---- wrap/pe.rs: slices and typed reads
+		let mut rvas: Vec<u32> = vec![0, 1, 0x1000, 0x1004];
+		for s in sh.iter().take(6) { rvas.push(s.VirtualAddress); rvas.push(s.VirtualAddress.wrapping_add(s.VirtualSize).wrapping_sub(2)); }
+		for d in dd.iter() { if d.VirtualAddress != 0 { rvas.push(d.VirtualAddress); } }
+		for &rva in rvas.iter() {
+			$acc.txt("slice", format!("{} {} {}", rs(g, $p.slice(rva, 1, 1)), rs(g, $p.slice(rva, 8, 4)), rs(g, $p.slice_bytes(rva))));
+			$acc.txt("derva", rcanon(g, $p.derva::<u32>(rva)));
+			$acc.txt("derva_copy", match $p.derva_copy::<u16>(rva) { Ok(x) => x.to_string(), Err(e) => er(e) });
+			let mut buf = [0u8; 5];
+			$acc.txt("derva_into", match $p.derva_into(rva, &mut buf) { Ok(()) => hex(&buf), Err(e) => er(e) });
+			$acc.txt("derva_slice", rslice(g, $p.derva_slice::<u16>(rva, 3)));
+			let mut seen = 0usize;
+			$acc.txt("derva_slice_f", format!("{} {}", rslice(g, $p.derva_slice_f::<u8, _>(rva, |b| { seen += 1; *b == 0 || seen > 12 })), seen));
+			$acc.txt("derva_slice_s", rslice(g, $p.derva_slice_s::<u16>(rva, 0)));
+			$acc.txt("derva_c_str", cstr_s(g, $p.derva_c_str(rva)));
+			$acc.txt("derva_string", cstr_s(g, $p.derva_string::<CStr>(rva)));
+		}
+		// ---- wrap/headers.rs
+		let h = $p.headers();
+		$acc.bytes("hdr.image", h.image());
+		let (cr, ir) = (h.code_range(), h.image_range());
+		$acc.txt("hdr", format!("{} {}..{} {}..{} {}", h.check_sum(), cr.start, cr.end, ir.start, ir.end, h.pe().image().len()));
+		// ---- directories whose type is the same through both APIs
+		match $p.rich_structure() {
+			Ok(r) => { let im = r.image(); $acc.txt("rich", format!("{} {} {} {}", tref(g, im.as_ptr(), im.len() * 4), r.xor_key(), r.checksum(), r.records().map(|x| format!("{}:{}:{}", x.product, x.build, x.count)).collect::<Vec<_>>().join(","))); },
+			Err(e) => $acc.txt("rich", er(e)),
+		}
+		match $p.base_relocs() {
+			Ok(br) => { $acc.bytes("relocs.image", br.image()); let mut hsh = 0u64; let mut n = 0usize; br.for_each(|rva, ty| { n += 1; hsh = hsh.wrapping_mul(31).wrapping_add(rva as u64 * 16 + ty as u64); }); $acc.txt("relocs.fold", format!("{} {} {}", br.iter_blocks().take(100000).count(), n, hsh)); },
+			Err(e) => $acc.txt("relocs", er(e)),
+		}
+		match $p.security() {
+			Ok(s) => { $acc.obj("security.image", s.image(), 8); $acc.txt("security.type", s.certificate_type().to_string()); $acc.bytes("security.data", s.certificate_data()); },
+			Err(e) => $acc.txt("security", er(e)),
+		}
+		match $p.resources() {
+			Ok(res) => match res.root() {
+				Ok(root) => { $acc.obj("res.root", root.image(), 16); $acc.txt("res.entries", format!("{}+{}", root.named_entries().count(), root.id_entries().count())); },
+				Err(e) => $acc.txt("res.root", er(e)),
+			},
+			Err(e) => $acc.txt("res", er(e)),
+		}
+		// ---- wrap/exports.rs
+		match $p.exports() {
+			Err(e) => $acc.txt("exp", er(e)),
+			Ok(exp) => {
+				$acc.obj("exp.image", exp.image(), 40);
+				$acc.txt("exp.hdr", format!("{} {} {}", exp.pe().image().len(), cstr_s(g, exp.dll_name()), exp.ordinal_base()));
+				$acc.txt("exp.tabs", format!("{} {} {}", rslice(g, exp.functions()), rslice(g, exp.names()), rslice(g, exp.name_indices())));
+				match exp.by() {
+					Err(e) => $acc.txt("exp.by", er(e)),
+					Ok(by) => {
+						$acc.obj("by.image", by.image(), 40);
+						$acc.txt("by.hdr", format!("{} {} {}", by.pe().image().len(), cstr_s(g, by.dll_name()), by.ordinal_base()));
+						$acc.txt("by.tabs", format!("{} {} {}", rslice(g, Ok(by.functions())), rslice(g, Ok(by.names())), rslice(g, Ok(by.name_indices()))));
+						$acc.txt("by.sorted", match by.check_sorted() { Ok(b) => b.to_string(), Err(e) => er(e) });
+						for (i, e) in by.iter().enumerate().take(300) {
+							let proj = match e { Ok(x) => format!("{:?}/{}", x.symbol(), x.forward().map_or("none".to_string(), |f| hex(f.as_ref()))), Err(_) => "-".to_string() };
+							$acc.txt("by.iter", format!("{} {} {} {}", exp_s(g, e), proj, exp_s(g, by.index(i)), imp_s(g, by.name_lookup(i))));
+						}
+						$acc.txt("by.index.end", format!("{} {}", exp_s(g, by.index(by.functions().len())), imp_s(g, by.name_lookup(by.functions().len()))));
+						for (hint, (n, e)) in by.iter_names().enumerate().take(300) {
+							$acc.txt("by.iter_names", format!("{} {} {} {}", cstr_s(g, n), exp_s(g, e), exp_s(g, by.hint(hint)), cstr_s(g, by.name_of_hint(hint))));
+							if let Ok(n) = n {
+								$acc.txt("by.name", format!("{} {} {} {} {}", exp_s(g, by.name(n)), exp_s(g, by.name_linear(n)), exp_s(g, by.hint_name(hint, n)), exp_s(g, by.hint_name(hint + 1, n)),
+									exp_s(g, by.import(Import::ByName { hint, name: n }))));
+								$acc.txt("get_export", format!("{} {}", exp_s(g, WrapOnly::by_name(&$p, n.as_ref())), exp_s(g, WrapOnly::by_imp(&$p, Import::ByName { hint: hint + 1, name: n }))));
+							}
+						}
+						$acc.txt("by.hint.end", format!("{} {}", exp_s(g, by.hint(by.names().len())), cstr_s(g, by.name_of_hint(by.names().len()))));
+						for (n, i) in by.iter_name_indices().take(300) { $acc.txt("by.iter_name_indices", format!("{} {}", cstr_s(g, n), i)); }
+						let base = by.ordinal_base();
+						$acc.txt("by.ordinal", format!("{} {} {} {}", exp_s(g, by.ordinal(base)), exp_s(g, by.ordinal(0)), exp_s(g, by.ordinal(0xffff)), exp_s(g, by.import(Import::ByOrdinal { ord: base }))));
+					},
+				}
+			},
+		}
+		$acc.txt("get_export.ord", format!("{} {} {}", exp_s(g, WrapOnly::by_ord(&$p, 1)), exp_s(g, WrapOnly::by_imp(&$p, Import::ByOrdinal { ord: 2 })), exp_s(g, WrapOnly::by_name(&$p, b"DllMain"))));
+		// ---- wrap/imports.rs
+		match $p.imports() {
+			Err(e) => $acc.txt("imp", er(e)),
+			Ok(imp) => {
+				$acc.obj("imp.image", imp.image().as_ptr(), imp.image().len() * 20);
+				$acc.txt("imp.hdr", format!("{} {}", imp.pe().image().len(), imp.into_iter().take(100000).count()));
+				for d in imp.iter().take(200) {
+					$acc.obj("imp.desc", d.image(), 20);
+					$acc.txt("imp.desc.hdr", format!("{} {}", d.pe().image().len(), cstr_s(g, d.dll_name())));
+					match d.iat() { Ok(it) => for x in it.take(3000) { $acc.txt("imp.iat", x.canon(g)); }, Err(e) => $acc.txt("imp.iat", er(e)) }
+					match d.int() { Ok(it) => for r in it.take(3000) { $acc.txt("imp.int", imp_s(g, r)); }, Err(e) => $acc.txt("imp.int", er(e)) }
+				}
+			},
+		}
+		match $p.iat() {
+			Err(e) => $acc.txt("iat", er(e)),
+			Ok(iat) => {
+				$acc.txt("iat.image", format!("{} {}", iat.image().canon(g), iat.pe().image().len()));
+				for x in iat.iter().take(5000) { $acc.txt("iat.item", x.canon(g)); }
+			},
+		}
+		// ---- wrap/load_config.rs, wrap/tls.rs
+		match $p.load_config() {
+			Err(e) => $acc.txt("lc", er(e)),
+			Ok(lc) => $acc.txt("lc", format!("{} {} {} {}", lc.image().canon(g), lc.pe().image().len(), rcanon(g, lc.security_cookie()), rcanon(g, lc.se_handler_table()))),
+		}
+		match $p.tls() {
+			Err(e) => $acc.txt("tls", er(e)),
+			Ok(tls) => $acc.txt("tls", format!("{} {} {} {} {}", tls.image().canon(g), tls.pe().image().len(), rs(g, tls.raw_data()), rcanon(g, tls.slot()), rcanon(g, tls.callbacks()))),
+		}
+		// ---- exception directory: the wrappers offer the value only (no methods on `Wrap<Exception32, Exception64>`)
+		$acc.txt("exc", rcanon(g, $p.exception()));
+		// ---- wrap/debug.rs
+		match $p.debug() {
+			Err(e) => $acc.txt("dbg", er(e)),
+			Ok(dbg) => {
+				$acc.obj("dbg.image", dbg.image().as_ptr(), dbg.image().len() * 28);
+				$acc.txt("dbg.hdr", format!("{} {} {}", dbg.pe().image().len(), match dbg.pdb_file_name() { Some(c) => cstr_s(g, Ok(c)), None => "none".to_string() }, dbg.into_iter().count()));
+				for dir in dbg.iter().take(500) {
+					$acc.obj("dbg.dir", dir.image(), 28);
+					$acc.txt("dbg.entry", format!("{} {} {}", dir.pe().image().len(), obytes(g, dir.data()), entry_s(g, dir.entry())));
+				}
+			},
+		}
+		// ---- wrap/scanner.rs
+		{
+			use pelite::pattern::Atom::*;
+			let sc = $p.scanner();
+			let cursor = $p.section_headers().iter().next().map(|s| s.VirtualAddress).unwrap_or(0);
+			for pat in [&[Save(0), Byte(0xE8), Push(4), Jump4, Save(1), Pop, Save(2)][..], &[Save(0), Skip(1), Byte(0)][..], &[Save(0), Byte(0x48), Byte(0x8B), Byte(0), Byte(0), Byte(0x90)][..], &[Save(0), Byte(0xCC), Save(1)][..]] {
+				let mut save = [0u32; 4];
+				let f1 = sc.finds_code(pat, &mut save);
+				let s1 = save;
+				let f2 = sc.finds(pat, 0..u32::max_value(), &mut save);
+				$acc.txt("scan.finds", format!("{} {:?} {} {:?}", f1, s1, f2, save));
+				let mut m = sc.matches_code(pat);
+				$acc.txt("scan.matches_code", format!("{}..{} {} {}", m.range().start, m.range().end, m.hits(), m.pattern().len()));
+				let mut n = 0;
+				while m.next(&mut save) { n += 1; $acc.txt("scan.hit", format!("{:?} {}..{} {}", save, m.range().start, m.range().end, m.hits())); if n >= 40 { break; } }
+				$acc.txt("scan.exec", format!("{} {:?}", m.scanner().exec(cursor, pat, &mut save), save));
+				let mut m = sc.matches(pat, 0..u32::max_value());
+				let mut n2 = 0;
+				while m.next(&mut save) { n2 += 1; if n2 >= 200 { break; } }
+				$acc.txt("scan.matches", format!("{} {}..{} {}", n2, m.range().start, m.range().end, m.hits()));
+			}
+		}
+	}};
+}
+
+/// the wrapper constructors only (`k` = wf | wv): `$w` is the WRAPPER, nothing is unwrapped
+macro_rules! with_wrapper {
+	($st:expr, $k:expr, $g:ident, $w:ident => $body:expr) => {{
+		match $st.img.as_ref() { None => "noimg".to_string(), Some($g) => match $k {
+			"wf" => match pelite::PeFile::from_bytes($g.bytes()) { Ok($w) => $body, Err(e) => format!("noimg {}", errname(e)) },
+			"wv" => match pelite::PeView::from_bytes($g.bytes()) { Ok($w) => $body, Err(e) => format!("noimg {}", errname(e)) },
+			_ => "bad-op".to_string(),
+		} }
+	}};
+}
+
+/// `exc wf|wv dump` and `exc wf|wv lookup <pc>` through `Wrap::exception()` of the WRAPPER (the operation
+/// of ops_dirs.rs unwraps the view first; this module is asked before it for the two wrapper kinds)
+fn exc_wrapped(st: &State, a: &[&str]) -> String {
+	let k = a[0];
+	match (a.len(), a.get(1).copied()) {
+		(2, Some("dump")) => with_wrapper!(st, k, g, w => match w.exception() {
+			Err(e) => format!("err {}", errname(e)),
+			Ok(Wrap::T32(exc)) => exc_dump_text!(g, &exc),
+			Ok(Wrap::T64(exc)) => exc_dump_text!(g, &exc),
+		}),
+		(3, Some("lookup")) => { let pc = num(a[2]) as u32; with_wrapper!(st, k, g, w => match w.exception() {
+			Err(e) => format!("err {}", errname(e)),
+			Ok(Wrap::T32(exc)) => exc_lookup_text!(g, &exc, pc),
+			Ok(Wrap::T64(exc)) => exc_lookup_text!(g, &exc, pc),
+		}) },
+		_ => "bad-op".to_string(),
+	}
+}
+
 /// json <k>: the serde_json rendering of the view
 pub fn json(st: &mut State, rest: &str) -> String {
 	let k = rest.trim();
 	with_any!(st, k, g, p => { let _ = g; match serde_json::to_string(&p) { Ok(js) => format!("ok {}", js), Err(e) => format!("fail {}", e) } })
 }
 
+/// walk <k>     → `ok items=<n> witems=<m> digest=<d>`: n = items of the whole-API walk (format-specific kinds) or of
+///                the wrapper stream (wf / wv); m, d = number of items and FNV digest of the WRAPPER-API stream
+/// walktext <k> → `ok <the wrapper-API stream itself>` (diagnosis of a digest difference)
 pub fn dispatch(st: &mut State, fam: &str, rest: &str) -> Option<String> {
 	if fam == "json" { return Some(json(st, rest)); }
-	if fam != "walk" { return None; }
+	if fam == "exc" {
+		let a: Vec<&str> = rest.split(' ').collect();
+		if a[0] == "wf" || a[0] == "wv" { return Some(exc_wrapped(st, &a)); }
+		return None;
+	}
+	if fam != "walk" && fam != "walktext" { return None; }
 	let k = rest.trim();
-	let bits = |k: &str| if k.contains("32") { 32 } else { 64 };
 	Some(match st.img.as_ref() { None => "noimg".to_string(), Some(g) => {
 		let bytes = g.bytes();
 		let mut acc = Acc { g, out: String::new(), items: 0, bad: Vec::new() };
+		let mut wacc = Acc { g, out: String::new(), items: 0, bad: Vec::new() };
 		macro_rules! go {
 			($ctor:expr, $pe:ident, $b:expr) => {{
 				use pelite::$pe::{Pe, PeObject};
-				match $ctor { Ok(p) => { let _ = p.image_base(); walk_body!(acc, p, $b); true }, Err(e) => { acc.txt("noimg", errname(e).to_string()); false } }
+				match $ctor { Ok(p) => { let _ = p.image_base(); if fam == "walk" { walk_body!(acc, p, $b); } wrap_stream!(wacc, p); true }, Err(e) => { acc.txt("noimg", errname(e).to_string()); false } }
+			}};
+		}
+		macro_rules! gow {
+			($ctor:expr) => {{
+				match $ctor { Ok(p) => { wrap_stream!(wacc, p); acc.items = wacc.items; true }, Err(e) => { acc.txt("noimg", errname(e).to_string()); false } }
 			}};
 		}
 		let ok = match k {
@@ -329,10 +696,14 @@ pub fn dispatch(st: &mut State, fam: &str, rest: &str) -> Option<String> {
 			"f64" => go!(pelite::pe64::PeFile::from_bytes(bytes), pe64, 64),
 			"v32" => go!(pelite::pe32::PeView::from_bytes(bytes), pe32, 32),
 			"v64" => go!(pelite::pe64::PeView::from_bytes(bytes), pe64, 64),
-			_ => { let _ = bits; return Some("bad-op".to_string()); },
+			"wf" => gow!(pelite::PeFile::from_bytes(bytes)),
+			"wv" => gow!(pelite::PeView::from_bytes(bytes)),
+			_ => return Some("bad-op".to_string()),
 		};
+		acc.bad.extend(wacc.bad.iter().map(|b| format!("wrapper-api {}", b)));
 		if !ok { format!("noimg {}", acc.out.trim_start_matches("noimg=").trim_end_matches(';')) }
 		else if !acc.bad.is_empty() { format!("bad {}", acc.bad.join(" | ")) }
-		else { format!("ok items={}", acc.items) }
+		else if fam == "walktext" { format!("ok {}", wacc.out.replace(' ', "_")) }
+		else { format!("ok items={} witems={} digest={}", acc.items, wacc.items, digest(wacc.out.as_bytes())) }
 	} })
 }
